@@ -37,6 +37,9 @@ def check(ctx: Ctx, col: Collector, tier: str) -> None:
     col.spec("C01.RAISE-INVENTORY", "every raise/assert reachable from the CLI is the documented rejection, provably unreachable, or guarded by the invariant named next to it",
              "inventory of raise and assert statements with their dominating conditions", floor=38)
     col.spec("C01.PARTIAL-OPS", "constant-index subscripts, pops and unpackings cannot fail", "inventory of partial operations with the fact that makes each safe", floor=78)
+    col.spec("C01.FS-TOLERANT", "writing the outputs cannot fail on an existing output directory, on non-ASCII text or on a special float: directories are created with "
+             "parents=True / exist_ok=True, files are opened for writing in w/a mode with an explicit UTF-8 encoding, JSON serialisation is not put in a strict mode",
+             "inventory of mkdir / touch / open / json.dump call sites and their keyword constants", floor=9)
     col.spec("C01.TERM", "the run terminates: loops have a variant, recursion descends", "syntactic variant of every while loop; structural descent of self-recursive calls", floor=50)
 
     # ------------------------------------------------------------------ LIBAPI
@@ -453,6 +456,47 @@ def check(ctx: Ctx, col: Collector, tier: str) -> None:
                         f"{fi.qualname}: `{ast.unparse(site.node)[:60]}` can raise IndexError: nothing on the path bounds the length of `{site.base[:40]}` to at least {site.need}")
     if npo < 20:
         raise AnalysisError(f"only {npo} constant-index subscripts found")
+
+    # ------------------------------------------------------------------ FS-TOLERANT
+    for rel, mi in repo.modules.items():
+        for fi in mi.functions.values():
+            for n in ast.walk(fi.node):
+                if not isinstance(n, ast.Call):
+                    continue
+                fname = n.func.attr if isinstance(n.func, ast.Attribute) else (n.func.id if isinstance(n.func, ast.Name) else "")
+                kws = {k.arg: k.value for k in n.keywords if k.arg}
+                const = lambda name, kws=kws: (kws[name].value if name in kws and isinstance(kws[name], ast.Constant) else ("?" if name in kws else None))  # noqa: E731
+                recv = ast.unparse(n.func.value)[:40] if isinstance(n.func, ast.Attribute) else ""
+                key = f"{rel}::{fi.qualname}::{recv}.{fname}" if recv else f"{rel}::{fi.qualname}::{fname}"
+                if fname == "mkdir":
+                    col.touched(fi)
+                    good = const("parents") is True and const("exist_ok") is True
+                    (col.ok if good else col.bad)("C01.FS-TOLERANT", key, repo.loc(rel, n), f"mkdir(parents={const('parents')}, exist_ok={const('exist_ok')})",
+                                                  *([] if good else [f"{fi.qualname}: `{ast.unparse(n)[:60]}` raises FileExistsError / FileNotFoundError when the directory exists already (second run into the same "
+                                                                     f"output directory) or its parent is missing"]))
+                elif fname == "touch":
+                    col.touched(fi)
+                    good = const("exist_ok") in (None, True)
+                    (col.ok if good else col.bad)("C01.FS-TOLERANT", key, repo.loc(rel, n), f"touch(exist_ok={const('exist_ok')})",
+                                                  *([] if good else [f"{fi.qualname}: `{ast.unparse(n)[:60]}` raises FileExistsError on a second run into the same output directory"]))
+                elif fname == "open" and (isinstance(n.func, ast.Attribute) or (isinstance(n.func, ast.Name))):
+                    mode = n.args[0] if isinstance(n.func, ast.Attribute) and n.args else (n.args[1] if isinstance(n.func, ast.Name) and len(n.args) > 1 else kws.get("mode"))
+                    m = mode.value if isinstance(mode, ast.Constant) else ("r" if mode is None else "?")
+                    if not isinstance(m, str) or not set(m) & set("wax+?"):
+                        continue
+                    col.touched(fi)
+                    enc = const("encoding")
+                    good = "x" not in m and m != "?" and ("b" in m or (isinstance(enc, str) and enc.lower().replace("-", "") == "utf8"))
+                    (col.ok if good else col.bad)("C01.FS-TOLERANT", key + f"({m})", repo.loc(rel, n), f"open(mode={m!r}, encoding={enc!r})",
+                                                  *([] if good else [f"{fi.qualname}: `{ast.unparse(n)[:60]}` can fail while writing: exclusive mode fails on an existing file, and without an explicit UTF-8 "
+                                                                     f"encoding non-ASCII names / docstrings raise UnicodeEncodeError under a non-UTF-8 locale"]))
+                elif fname in ("dump", "dumps") and recv == "json":
+                    col.touched(fi)
+                    strict = [k for k in ("allow_nan", "check_circular") if const(k) is False] + [k for k in ("default", "cls") if k in kws]
+                    good = not strict
+                    (col.ok if good else col.bad)("C01.FS-TOLERANT", key, repo.loc(rel, n), f"json.{fname} keywords {sorted(kws)}",
+                                                  *([] if good else [f"{fi.qualname}: `{ast.unparse(n)[:70]}` puts the serialiser in a strict / custom mode ({strict}): a model value such as a default of "
+                                                                     f"1e999 (inf) makes it raise after the file was opened"]))
 
     # ------------------------------------------------------------------ TERM
     nt = 0
